@@ -173,9 +173,12 @@ def c10(tier, seed, work):
                 dict(name="c10-nosess", insess=False, cmds="CmdsAB", maxcalls=2, maxatt=3, kinds="KindsRetryNS", auth=1, integ=1),
                 dict(name="c10-nosessR", insess=False, cmds="CmdsAR", maxcalls=1, maxatt=4, kinds="KindsSessionless", auth=1, integ=1)]
         mc = [("MCConsole", "MC_Console_sess.cfg"), ("MCConsole", "MC_Console_nosess.cfg")]
-    return console_check("C10", tier, seed, work, mc, fams, COMMON_ASSUME,
-                         hs_fams=[dict(name="c10-hs-retry", family="retry", tier=tier, seed=seed),
-                                  dict(name="c10-hs-retry-rt", family="retry", tier=tier, seed=seed + 1, opts={"blockOnLost": True, "timeoutMs": 120})])
+    res = console_check("C10", tier, seed, work, mc, fams, COMMON_ASSUME,
+                        hs_fams=[dict(name="c10-hs-retry", family="retry", tier=tier, seed=seed),
+                                 dict(name="c10-hs-retry-rt", family="retry", tier=tier, seed=seed + 1, opts={"blockOnLost": True, "timeoutMs": 120})])
+    return add_walk(res, work, [dict(name="c10-lun", module="MCGenSensor", cfg_tpl="Gen_Cipher.cfg.tpl", family="lun", tier=tier, seed=seed)],
+                    "Commands addressed to responder LUN 0..3 (Get Sensor Reading through a sensor reader), answered from that LUN with "
+                    "temporary codes and then the reading.")
 
 
 def c11(tier, seed, work):
